@@ -195,14 +195,7 @@ Variable f : fopts.
 
 Fixpoint fmt_stmt (s : stmt) (toks : list token) {struct s} : fres :=
   let stmts_of (l : list (stmt * nat)) (tk' : list token) : fres :=
-    (fix go (l : list (stmt * nat)) : fres :=
-       match l with
-       | [] => FOk []
-       | (x, off) :: r =>
-           do a <- with_from off tk' (fun t' => fmt_stmt x t');
-           do b <- go r;
-           FOk (a ++ b)
-       end) l in
+    fconcat (fun xo : stmt * nat => with_from (snd xo) tk' (fun t' => fmt_stmt (fst xo) t')) l in
   (* fn fmt_branch *)
   let branch (br : option (stmt * nat)) (ending : char) : fres :=
     match br with
